@@ -34,6 +34,8 @@ pub(crate) mod storage;
 pub(crate) mod test_utils;
 pub(crate) mod upgrades;
 mod utils;
+#[cfg(feature = "verif")]
+pub mod verif;
 
 pub use build_info::BUILD_INFO;
 pub use config::Config;
